@@ -34,3 +34,6 @@ s_harness! { fn c01_shape_9() { shape_9::<CHK_READS>() } }
 s_harness! { fn c19_shape_8() { shape_8::<CHK_STATS>() } }
 s_harness! { fn c19_shape_9() { shape_9::<CHK_STATS>() } }
 s_harness! { fn c14_shape_9() { shape_9::<{ CHK_MONITOR | CHK_SIZES }>() } }
+// C13: partial selection (nothing live is copied out of a file that is left alone) and idempotence
+s_harness! { fn c13_partial() { shape_10::<{ CHK_SIZES | CHK_READS }>() } }
+s_harness! { fn c13_twice() { shape_11::<{ CHK_SIZES | CHK_READS }>() } }
